@@ -367,6 +367,53 @@ async fn api_round_trips(p: &EpParams) -> (EpReport, u64) {
             }
         }
     }
+    // "accepted only if": every RPC that takes a name refuses a string outside the grammar, whatever
+    // else the request carries (also when it carries nothing: no ack IDs, no messages), and answers
+    // NOT_FOUND - not OK - for a well-formed name that names nothing
+    {
+        let bad_subs = ["", "nope", "projects/p/topics/t", "projects/a/b/subscriptions/s", "projects/p/subscriptions", "subscriptions/s", "projects//subscriptions/"];
+        let bad_topics = ["", "nope", "projects/p/subscriptions/s", "projects/a/b/topics/t", "projects/p/topics", "topics/t"];
+        let none: Vec<String> = vec![];
+        let one = vec!["1".to_string()];
+        for name in bad_subs.iter().copied().chain(["projects/q/subscriptions/missing"]) {
+            let want = if name.starts_with("projects/q/") { NOT_FOUND } else { INVALID_ARGUMENT };
+            let mut answers: Vec<(&str, i32)> = Vec::new();
+            let code = |r: Result<(), tonic::Status>| r.err().map(|e| e.code() as i32).unwrap_or(0);
+            answers.push(("Acknowledge[]", code(cx.ack(name, &none).await)));
+            answers.push(("Acknowledge[1]", code(cx.ack(name, &one).await)));
+            answers.push(("ModifyAckDeadline[]", code(cx.modify(name, &none, 10).await)));
+            answers.push(("ModifyAckDeadline[1]", code(cx.modify(name, &one, 10).await)));
+            answers.push(("Pull", code(cx.pull(name, 1, true).await.map(|_| ()))));
+            answers.push(("GetSubscription", code(cx.get_sub(name).await.map(|_| ()))));
+            answers.push(("DeleteSubscription", code(cx.delete_sub(name).await)));
+            for (rpc, c) in answers {
+                n += 1;
+                if c != want {
+                    let class = if want == NOT_FOUND { "missing" } else { "malformed" };
+                    rep.viol("C18", format!("C18:accepted-as-name:{}:{}:code={}", rpc, class, c), format!("{} with subscription {:?} answered {} (expected {})", rpc, name, c, want));
+                }
+            }
+            rep.inc("bad_names_through_every_rpc");
+        }
+        for name in bad_topics.iter().copied().chain(["projects/q/topics/missing"]) {
+            let want = if name.starts_with("projects/q/") { NOT_FOUND } else { INVALID_ARGUMENT };
+            let code = |r: Result<(), tonic::Status>| r.err().map(|e| e.code() as i32).unwrap_or(0);
+            let answers = vec![
+                ("Publish[]", code(cx.publish(name, &[]).await.map(|_| ()))),
+                ("Publish[1]", code(cx.publish(name, &[Msg::tagged("x")]).await.map(|_| ()))),
+                ("GetTopic", code(cx.get_topic(name).await.map(|_| ()))),
+                ("ListTopicSubscriptions", code(cx.list_topic_subs(name, 0, "").await.map(|_| ()))),
+                ("DeleteTopic", code(cx.delete_topic(name).await)),
+            ];
+            for (rpc, c) in answers {
+                n += 1;
+                if c != want {
+                    let class = if want == NOT_FOUND { "missing" } else { "malformed" };
+                    rep.viol("C18", format!("C18:accepted-as-name:{}:{}:code={}", rpc, class, c), format!("{} with topic {:?} answered {} (expected {})", rpc, name, c, want));
+                }
+            }
+        }
+    }
     // names that differ only far from their beginning denote different resources (and long names
     // are echoed whole): twins sharing a prefix of L bytes, in the ID and in the project
     for l in [8usize, 200, 255, 256, 257, 300, 1000 + rng.below(3000) as usize] {
